@@ -580,10 +580,106 @@ def job_abort_sites(res, pid, K):
             res.obs.append(Ob('interrupt seen at the set-up read in block %s (flag forced set, %d paths): %s' % (b, out['paths'], TEXT[k]), 'holds' if ok else 'violated', key='abort-at-setup-' + k,
                               detail='' if ok else str(v['bad'][:1])[:500], cex=None if ok else {'replay': 'mainloop', 'site': b, 'obligation': k, 'example': v['bad'][:1]}))
 
+
+# ------------------------------------------------------------------ program stores to the interrupt flag (C14): none may clear a pending interrupt
+def _cfg(f):
+    succ = {}
+    for b in f.order:
+        t = f.blocks[b][-1]; r = [t[k] for k in ('target', 't', 'f', 'normal', 'unwind') if k in t]
+        if t['op'] == 'switch': r += [t['default']] + [lb for _, lb in t['cases']]
+        succ[b] = r
+    pred = {b: [] for b in f.order}
+    for b, ss in succ.items():
+        for x in ss: pred.setdefault(x, []).append(b)
+    return succ, pred
+
+def _idoms(f):
+    succ, pred = _cfg(f); entry = f.order[0]; dom = {b: None for b in f.order}; dom[entry] = {entry}
+    allb = set(f.order); changed = True
+    for b in f.order:
+        if b != entry: dom[b] = set(allb)
+    while changed:
+        changed = False
+        for b in f.order:
+            if b == entry: continue
+            ps = [dom[p] for p in pred.get(b, []) if dom[p] is not None]
+            nd = (set.intersection(*ps) if ps else set()) | {b}
+            if nd != dom[b]: dom[b] = nd; changed = True
+    idom = {}
+    for b in f.order:
+        cands = dom[b] - {b}
+        idom[b] = max(cands, key=lambda c: len(dom[c])) if cands else None
+    return idom, pred
+
+def explore_to_abort_store(mod, fname, start, target, max_paths=1500, budget=90):
+    """all paths of `fname` from the top of block `start` to the first store to the interrupt flag in block `target`; returns [(stored value, path condition, last flag read or None)], truncated?"""
+    ex = UCExec(mod, 0); ex.hdr = None; ex.scc = set(); f = mod.funcs[fname]
+    for d in mod.decls:
+        if d.startswith('llvm.') or d in LIBM or d in ('_Znwm', '_Znam', '_ZdlPv', '_ZdaPv', '__cxa_allocate_exception', '__cxa_throw', '__cxa_begin_catch', '__cxa_end_catch', '__cxa_rethrow', '__cxa_free_exception', 'memcpy', 'memmove', 'memset'): continue
+        ex.ext[d] = raw_event_call(ex, d, d.startswith(PURE_PREFIXES))
+    for d in mod.funcs:
+        if d != fname: ex.ext[d] = raw_event_call(ex, d, d.startswith(PURE_PREFIXES))
+    ex.ext['_ZdlPv'] = ext_noop
+    for nm in ('__cxa_begin_catch', '__cxa_end_catch', '__clang_call_terminate'): ex.ext[nm] = ext_noop
+    def indirect(st_, fr_, ins, fp, args):
+        st_.events.append(('vcall', show(fp), list(args))); return None if isinstance(ins['ty'], VoidTy) else ex.fresh(st_, ins['ty'], 'vret')
+    ex.indirect_hook = indirect
+    class Hit(Exception): pass
+    base_store = ex.store
+    def store(st, addr, ty, val):
+        if isinstance(addr, OPtr) and addr.base == '@' + ABORT:
+            fr = st.frames[-1]
+            if fr.fn.name == fname and fr.blk == target:
+                k = st.extra.get('nabort', 0)
+                st.extra['hit'] = (val, list(st.pc), z3.BitVec('abort_read%d' % k, 8) if k else None); raise Hit()
+        return base_store(st, addr, ty, val)
+    ex.store = store
+    _, pred = _idoms(f); outs = []; trunc = False; t0 = time.time()
+    for pv in (pred.get(start) or [None]):
+        st = State(); fr = Frame(f); fr.blk = start; fr.prev = pv; st.frames.append(fr); work = [st]
+        while work:
+            s = work.pop()
+            if len(outs) > max_paths or time.time() - t0 > budget: trunc = True; work = []; break
+            try: ex.run_path(s, work)
+            except Hit: outs.append(s.extra['hit'])
+            except (Truncated, PathEnd, Unsupported, MemError): pass
+    return outs, trunc, ex
+
+def job_abort_stores(res, depth=8):
+    """C14: apart from the handler, the program itself writes the interrupt flag (failed file creation).  Such a store must not be able to write 'false'
+    (or anything below a value of the flag read earlier on the same path): the handler may have set the flag at any earlier moment."""
+    bld = main_build(); mod = load_module(bld, ['main']); n_sites = 0
+    for fname, f in mod.funcs.items():
+        if 'SIGINT_handler' in fname: continue
+        blocks = [b for b in f.order if any(i['op'] == 'store' and i['ptr'] == ('global', ABORT) for i in f.blocks[b])]
+        if not blocks: continue
+        idom, pred = _idoms(f)
+        for b in blocks:
+            n_sites += 1; start = b; verdict = None; lvl = 0; detail = ''; npaths = 0
+            for lvl in range(depth + 1):
+                outs, trunc, ex = explore_to_abort_store(mod, fname, start, b)
+                npaths += len(outs); res.paths += len(outs); res.instrs += ex.stats.get('instrs', 0)
+                if trunc and lvl > 0: break          # budget: keep the verdict of the previous level
+                bad = None
+                for val, pc, last in outs:
+                    v = val if z3.is_expr(val) else z3.BitVecVal(int(val), 8)
+                    clr = (v == 0) if last is None else z3.And(z3.ULT(v, last))
+                    sv = z3.Solver(); sv.set('timeout', 20000); sv.add(*pc); sv.add(clr); t0 = time.time(); r = sv.check(); res.queries += 1; res.solver_s += time.time() - t0
+                    if r != z3.unsat: bad = (show(val), r, [show(c) for c in pc[-4:]]); break
+                if bad is None and outs: verdict = 'holds'; break
+                if not outs and lvl == 0: verdict = 'inconclusive'; detail = 'no path from the top of the block reaches the store'; break
+                verdict = 'violated'; detail = 'from block %s (dominator level %d) the stored value can be false: value %s, solver %s, last path conditions %s' % (start, lvl, bad[0], bad[1], bad[2]) if bad else detail
+                nxt = idom.get(start)
+                if nxt is None: break
+                start = nxt
+            res.obs.append(Ob('%s, block %s: the program\'s own store to Display::abort cannot clear a pending interrupt - the stored value is true on every path (explored back through %d dominating block(s), %d paths)' % (fname[:40], b, lvl, npaths),
+                              verdict, key='abort-store-monotone', detail=detail, cex=None if verdict != 'violated' else {'replay': 'mainloop', 'obligation': 'abort-store-monotone', 'function': fname, 'block': b, 'detail': detail}))
+    res.obs.append(Ob('main\'s translation unit stores to the interrupt flag at %d site(s) outside the handler' % n_sites, 'holds', key='abort-store-sites'))
+
 def jobs_for(pid, tier):
     K, depth = (2, 4) if tier == 'quick' else (3, 5)
     jobs = [(job_loop, (pid, K, depth, i)) for i in range(1 << depth)]
-    if pid == 'C14': jobs.append((job_abort_sites, (pid, 1)))
+    if pid == 'C14': jobs += [(job_abort_sites, (pid, 1)), (job_abort_stores, ())]
     return jobs
 
 def explore_part(mod, K, depth, index):
